@@ -1309,6 +1309,7 @@ func (u *Unit) run(st *State, fr *Frame, b *ssa.BasicBlock, idx int) []Outcome {
 					s.assume(cond)
 					if m := IntMirror(cond); m != nil {
 						s.assume(m)
+						mirrorFacts.Store(m, true)
 					}
 					f.symBranch = true
 					if !(u.specMode > 0 && specNoPrune) && !u.feasible(s) {
